@@ -1,5 +1,5 @@
 # replay of a bounded stand-in violation (C16): re-run native/c16_states.py
 import sys
-print('bosonic n=2 pure=True cat: reduced_dm([0]) has shape (8, 8, 8, 8), expected two indices per mode')
+print('n=2 pure=True cat: quad_expectation(1,0.0) = [0.62239, 0.63981] on bosonic, [0.62239, 2.27449] on fock')
 print('REPLAY-VIOLATION')
 sys.exit(1)
